@@ -235,6 +235,25 @@ Definition prefix_ok (cap batch : Z) (ops : list op) : bool :=
     && is_subseq (ops_popped ops ++ fst after) (ops_kept ops)
   end.
 
+(* exact accounting between consecutive observed states: a push leaves the newest
+   min(cap, ...) of (queue ++ kept alerts) — nothing is dropped unless the
+   capacity forces it, and then the oldest go first; a pop removes a prefix and
+   returns exactly it *)
+Definition lastn {A} (n : nat) (l : list A) : list A := skipn (length l - n) l.
+
+Fixpoint steps_exact (cap : Z) (prev : list Z) (ops : list op) : bool :=
+  match ops with
+  | [] => true
+  | OPush a after :: r =>
+    let all := prev ++ filter keep_nonneg a in
+    list_eqb Z.eqb (fst after) (lastn (Z.to_nat (Z.min cap (len all))) all)
+    && steps_exact cap (fst after) r
+  | OPop out after :: r =>
+    list_eqb Z.eqb (out ++ fst after) prev && steps_exact cap (fst after) r
+  | OPopBlocked after :: r =>
+    list_eqb Z.eqb (fst after) prev && steps_exact cap (fst after) r
+  end.
+
 Fixpoint seqZ (from : Z) (n : nat) : list Z :=
   match n with O => [] | S k => from :: seqZ (from + 1) k end.
 
@@ -257,7 +276,7 @@ Definition obs_pred (cap batch : Z) (tr : list label) (after : ostate) : bool :=
 
 Definition pred_ok (c : case) : bool :=
   match c with
-  | CSeq cap batch ops => forallb (prefix_ok cap batch) (prefixes ops)
+  | CSeq cap batch ops => forallb (prefix_ok cap batch) (prefixes ops) && steps_exact cap [] ops
   | CWake cap batch alerts woken out after =>
       let k := filter keep_nonneg alerts in
       (* alerts were queued => the waiting popper was woken *)
